@@ -89,6 +89,15 @@ pub fn run_socket(sc: &Value) -> Value {
     let mut results: Vec<Value> = vec![];
     let mut open: Vec<Option<TcpStream>> = vec![];
     for c in conns {
+        if let Some(cl) = c["close_first"].as_array() {
+            for i in cl {
+                let i = i.as_u64().unwrap() as usize;
+                if i < open.len() {
+                    open[i] = None;
+                }
+            }
+            std::thread::sleep(Duration::from_millis(150));
+        }
         let mut s = match TcpStream::connect(addr) {
             Ok(s) => s,
             Err(e) => {
